@@ -190,6 +190,10 @@ def build_instance(name, p):
         return inst(["CS1", "CS0"][rl % 2], ("+", a, b), m_same_operands_changed)
     if name == "CS-mul":
         return inst("CS1", ("*", a, b), m_same_operands_changed)
+    if name == "CS-compound":
+        # a and b stand for ANY sub-expression: differences, quotients, negations, powers, products under +, sums under *
+        op = "+" if rl % 2 else "*"
+        return inst(["CS1", "CS0"][p["i"] % 2] if op == "+" else "CS1", (op, p["CA"], p["CB"]), m_same_operands_changed)
     if name == "CS0-mul":
         # preferred=False only keeps products that already are in preferred order (4x, 8y^4) from commuting;
         # a product whose left factor is not a constant and whose right factor is not a variable power still commutes
@@ -377,7 +381,7 @@ def _sum_folded(res, lhs, k1, k2):
 
 
 SCHEMAS = [
-    "CS-add", "CS-mul", "CS0-mul", "CS0-term-refuse", "CS0-term-in-product", "CS-chain", "CS-flip", "CS-refuse", "AG-left", "AG-right", "AG-both", "AG-refuse", "CA-simple", "CA-neg", "CA-sibling", "CA-alt", "CA-refuse",
+    "CS-add", "CS-mul", "CS-compound", "CS0-mul", "CS0-term-refuse", "CS0-term-in-product", "CS-chain", "CS-flip", "CS-refuse", "AG-left", "AG-right", "AG-both", "AG-refuse", "CA-simple", "CA-neg", "CA-sibling", "CA-alt", "CA-refuse",
     "DF-simple", "DF-chained-left", "DF-chained-right", "DF-constants", "DF-constants-refuse", "DF-refuse", "DM-right", "DM-left", "DM-refuse", "MI", "MI-neg",
     "MI-refuse", "RS-sub", "RS-sub-const", "RS-sub-term", "RS-sub-quotient", "RS-sub-negconst", "RS-sub-negvar", "RS-sub-negterm", "RS-add-negconst", "RS-add-negterm", "RS-refuse",
     "VM", "VM-refuse", "BM-add", "BM-add3", "BM-mul", "BM-refuse", "CA-zero",
@@ -402,6 +406,20 @@ def params(draw, name):
             p["B"] = draw(S.atom().filter(lambda x: norm(x) != norm(p["A"]) and not (x[0] == "^" and x[1][0] == "v" and x[2][0] == "c")))
     if name == "CS-chain":
             p["G"] = draw(S.atom().filter(lambda x: norm(x) != norm(p["B"])))
+    if name == "CS-compound":
+        at = S.atom()
+        inner = ["-", "/", "neg", "^", "*"] if p["rule_alt"] % 2 else ["-", "/", "neg", "^", "+"]
+        def comp(draw_):
+            k = draw_(st.sampled_from(inner))
+            if k == "neg":
+                return ("neg", draw_(at))
+            if k == "^":
+                return ("^", draw_(at.filter(lambda x: x[0] == "v")), draw_(at.filter(lambda x: x[0] in ("v", "c"))))
+            return (k, draw_(at), draw_(at))
+        p["CA"] = comp(draw)
+        p["CB"] = draw(st.one_of(at, at)) if draw(st.integers(0, 2)) else comp(draw)
+        if norm(p["CA"]) == norm(p["CB"]):
+            p["CB"] = V("q")
     elif name.startswith("MI") or name.startswith("RS") or name.startswith("BM") or name in ("DF-chained-left", "DF-chained-right", "CA-alt"):
         p["A"], p["B"] = draw(S.anyexp()), draw(S.anyexp().filter(lambda a: a[0] != "neg"))
         if name.startswith("DF"):
